@@ -148,6 +148,18 @@ fn count_osstr_chars_for_exec(s: &OsStr) -> usize {
     s.as_bytes().len() + 1
 }
 
+/// Turn the bytes of one input argument into an `OsString` without altering them.
+#[cfg(unix)]
+fn bytes_to_os_string(bytes: &[u8]) -> OsString {
+    use std::os::unix::ffi::OsStringExt;
+    OsString::from_vec(bytes.to_vec())
+}
+
+#[cfg(not(unix))]
+fn bytes_to_os_string(bytes: &[u8]) -> OsString {
+    String::from_utf8_lossy(bytes).into_owned().into()
+}
+
 #[derive(Clone)]
 struct MaxCharsCommandSizeLimiter {
     current_size: usize,
@@ -581,7 +593,7 @@ where
         }
 
         Ok(Some(Argument {
-            arg: String::from_utf8_lossy(&result[..]).into_owned().into(),
+            arg: bytes_to_os_string(&result[..]),
             kind: if terminated_by_newline {
                 ArgumentKind::HardTerminated
             } else {
@@ -630,7 +642,7 @@ where
                     &buf[..]
                 };
                 break Some(Argument {
-                    arg: String::from_utf8_lossy(bytes).into_owned().into(),
+                    arg: bytes_to_os_string(bytes),
                     kind: ArgumentKind::HardTerminated,
                 });
             }
